@@ -164,6 +164,13 @@ struct Leaf
     return r;
   }
 };
+// takes every argument by value (a temporary is moved into the parameter, an lvalue copied)
+struct LeafV
+{
+  long id;
+  template <class... A>
+  long operator()(A... a) const { return log_call(id, a...); }
+};
 // returns (by reference) the object it receives first
 struct LeafRef
 {
